@@ -41,6 +41,10 @@ type Engine struct {
 	LoadTime time.Duration
 	Solver   string
 
+	finfo  sync.Map // *ssa.Function -> *funcInfo
+	memoMu sync.RWMutex
+	memo   map[string]*memoEntry
+
 	baseMu      sync.Mutex
 	baseGlobals map[*ssa.Global]*value
 }
@@ -58,6 +62,7 @@ type RunConfig struct {
 	AuditEvery int // sample a model of every n-th completed path for native audit
 	Trace      bool
 	MaxAudits  int
+	NoMemo     bool
 }
 
 type HarnessResult struct {
@@ -129,7 +134,7 @@ func Load(repoDir string, overlayDirs map[string]string) (*Engine, error) {
 	prog, _ := ssautil.AllPackages(initial, ssa.InstantiateGenerics|ssa.SanityCheckFunctions)
 	prog.Build()
 	e := &Engine{Prog: prog, Pkgs: map[string]*ssa.Package{}, Fset: prog.Fset, RepoDir: repoDir,
-		subject: map[string]bool{}, Sources: map[string]string{}, Solver: "z3"}
+		subject: map[string]bool{}, Sources: map[string]string{}, Solver: "z3", memo: map[string]*memoEntry{}}
 	for _, p := range prog.AllPackages() {
 		e.Pkgs[p.Pkg.Path()] = p
 	}
@@ -207,6 +212,8 @@ func (e *Engine) newInterpreter(cfg RunConfig) (*interpreter, error) {
 		eng:        e,
 		stepBudget: cfg.StepBudget,
 		auditEvery: cfg.AuditEvery,
+		memoOn:     !cfg.NoMemo,
+		memo:       map[string]*memoEntry{},
 		tier:       cfg.Tier,
 		seed:       cfg.Seed,
 	}
@@ -585,4 +592,42 @@ func (e *Engine) ExpectedCovers(full string) []string {
 	}
 	visit(h)
 	return sortedKeys(labels)
+}
+
+// funcInfo numbers the SSA values of a function so that frames can keep them
+// in a slice.
+type funcInfo struct {
+	index map[ssa.Value]int
+	n     int
+}
+
+func (e *Engine) funcInfoOf(fn *ssa.Function) *funcInfo {
+	if v, ok := e.finfo.Load(fn); ok {
+		return v.(*funcInfo)
+	}
+	fi := &funcInfo{index: map[ssa.Value]int{}}
+	add := func(v ssa.Value) {
+		if _, ok := fi.index[v]; !ok {
+			fi.index[v] = fi.n
+			fi.n++
+		}
+	}
+	for _, p := range fn.Params {
+		add(p)
+	}
+	for _, fv := range fn.FreeVars {
+		add(fv)
+	}
+	for _, l := range fn.Locals {
+		add(l)
+	}
+	for _, b := range fn.Blocks {
+		for _, ins := range b.Instrs {
+			if v, ok := ins.(ssa.Value); ok {
+				add(v)
+			}
+		}
+	}
+	v, _ := e.finfo.LoadOrStore(fn, fi)
+	return v.(*funcInfo)
 }
